@@ -4,3 +4,4 @@
 pub mod distro;
 pub mod sync;
 pub mod clock;
+pub mod naming;
